@@ -220,8 +220,13 @@ func listenerScenario(id string, seed int64, lt *layoutTables, cycles int, recs 
 		wg.Wait()
 		// every datagram has produced its call-back (or 2 s passed)
 		t1 := time.Now()
-		for !abrupt && atomic.LoadInt32(&l.callbacks) < atomic.LoadInt32(&total) && time.Since(t1) < 2*time.Second {
+		for !abrupt && atomic.LoadInt32(&l.callbacks) < atomic.LoadInt32(&total) && time.Since(t1) < 5*time.Second {
 			time.Sleep(time.Millisecond)
+		}
+		if !abrupt && atomic.LoadInt32(&l.callbacks) < atomic.LoadInt32(&total) {
+			// datagrams that were written to the loopback socket of a listener nobody has told to stop, seconds ago, and
+			// no call-back: they are not "in flight" (the specification has no step for this event - the trace ends here)
+			log.add(M{"ev": "stalled", "callbacks": int(atomic.LoadInt32(&l.callbacks)), "datagrams": int(atomic.LoadInt32(&total))})
 		}
 		log.add(M{"ev": "quit"})
 		q <- os.Interrupt
